@@ -2,6 +2,7 @@
 package txn
 
 import (
+	"context"
 	"database/sql"
 	"encoding/json"
 	"errors"
@@ -24,6 +25,7 @@ type Act struct {
 	Out string `json:"out,omitempty"`
 	Sw  bool   `json:"sw"`
 	K   int    `json:"k,omitempty"`
+	Via string `json:"via,omitempty"`
 }
 
 func (a Act) JSON() hx.M {
@@ -31,7 +33,7 @@ func (a Act) JSON() hx.M {
 	case "enter":
 		return hx.M{"op": "enter", "f": a.F}
 	case "write":
-		return hx.M{"op": "write", "id": a.ID, "f": a.F}
+		return hx.M{"op": "write", "id": a.ID, "f": a.F, "via": a.Via}
 	case "exit":
 		return hx.M{"op": "exit", "out": a.Out, "sw": a.Sw, "f": a.F}
 	case "mrollto":
@@ -110,7 +112,16 @@ func (x *interp) block(tx *gorm.DB) error {
 			if a.F {
 				x.arm("insert")
 			}
-			if err := tx.Create(&TxRow{ID: a.ID, V: a.ID}).Error; err != nil {
+			h := tx
+			switch a.Via {
+			case "prep":
+				h = tx.Session(&gorm.Session{PrepareStmt: true})
+			case "sess":
+				h = tx.Session(&gorm.Session{})
+			case "ctx":
+				h = tx.WithContext(context.Background())
+			}
+			if err := h.Create(&TxRow{ID: a.ID, V: a.ID}).Error; err != nil {
 				pending = err
 			}
 		case "read":
@@ -124,7 +135,23 @@ func (x *interp) block(tx *gorm.DB) error {
 				x.arm("savepoint")
 			}
 			before := x.pos
-			err := tx.Transaction(func(tx2 *gorm.DB) error { return x.block(tx2) })
+			var err error
+			if x.recovers(before) {
+				// the enclosing block recovers the nested block's panic and carries on
+				func() {
+					defer func() {
+						if v := recover(); v != nil && v != interface{}(thePanic) {
+							panic(v)
+						}
+					}()
+					err = tx.Transaction(func(tx2 *gorm.DB) error { return x.block(tx2) })
+				}()
+				if x.pos > 0 && x.prog[x.pos-1].Op == "exit" && x.prog[x.pos-1].Out == "panic" {
+					break
+				}
+			} else {
+				err = tx.Transaction(func(tx2 *gorm.DB) error { return x.block(tx2) })
+			}
 			if a.F && x.pos != before {
 				return fmt.Errorf("txn: function of a refused block ran")
 			}
@@ -155,6 +182,26 @@ func (x *interp) block(tx *gorm.DB) error {
 		}
 	}
 	return fmt.Errorf("txn: program ended inside a block")
+}
+
+// recovers reports whether the block whose body starts at pos ends with a panic that its parent
+// recovers (exit out=panic sw=true).
+func (x *interp) recovers(pos int) bool {
+	depth := 0
+	for i := pos; i < len(x.prog); i++ {
+		switch x.prog[i].Op {
+		case "enter":
+			if !x.prog[i].F {
+				depth++
+			}
+		case "exit":
+			if depth == 0 {
+				return x.prog[i].Out == "panic" && x.prog[i].Sw
+			}
+			depth--
+		}
+	}
+	return false
 }
 
 type Result struct {
@@ -412,7 +459,7 @@ func randBlocks(r *rand.Rand, nested bool) []Act {
 			case c < 5:
 				nw++
 				f := wantFault && !faulted && r.Intn(4) == 0
-				prog = append(prog, Act{Op: "write", ID: nw, F: f})
+				prog = append(prog, Act{Op: "write", ID: nw, F: f, Via: []string{"", "", "prep", "sess", "ctx"}[r.Intn(5)]})
 				if f {
 					faulted = true
 					mode = "fail"
@@ -457,6 +504,10 @@ func randBlocks(r *rand.Rand, nested bool) []Act {
 			sw := depth > 1 && r.Intn(2) == 0
 			prog = append(prog, Act{Op: "exit", Out: "err", Sw: sw})
 			return "err", sw
+		}
+		if depth > 1 && r.Intn(2) == 0 { // the parent recovers it
+			prog = append(prog, Act{Op: "exit", Out: "panic", Sw: true})
+			return "nil", false
 		}
 		prog = append(prog, Act{Op: "exit", Out: "panic"})
 		return "panic", false
